@@ -21,6 +21,14 @@ def cases(tier: str):
                     for seq in seq_menu(n):
                         for is_async in (False, True):
                             yield dict(n=n, es=es, res=res, mc=mc, seq=seq, is_async=is_async, ties=1 if q else None)
+    # an AsyncDAG awaited while another task (a heartbeat) is alive on the same loop: the resources still decide the thread
+    for n in (2, 3):
+        for es in shapes(n):
+            for res in all_res(n):
+                if "m" not in res:
+                    continue
+                for mc in (1, 2):
+                    yield dict(n=n, es=es, res=res, mc=mc, seq=(False,) * n, is_async=True, sibling=True, ties=0)
     # max_concurrency reconfigured after the build (lowered and raised), by config_from_dict and by assignment
     for n in (2, 3, 4):
         for es in shapes(n):
